@@ -22,13 +22,16 @@ CFG.update({
     "prop": "C09",
     "prop_v": "theories/Properties/C09.v",
     "model_mode": "c09",
+    "batches": lambda tier, seed: [("exhaustive", "-frame -mode exhaustive -tier %s" % tier),
+                                   ("adversarial", "-frame -mode adversarial -tier %s" % tier),
+                                   ("random", "-frame -mode random -tier %s" % tier)],
     "signatures": {"D09b-leftfactor-group-test": sig_d09b,
                    "D09c-no-production-rule": sig_d09c,
                    "fresh-name-exhaustion": _c08.sig_out_of_names},
     "rule": _c08.RULE + " C09 evaluates on every grammar RETURNED BY THE GO CODE the extracted post-condition checker of the transformation "
                         "(no_empty_except_fresh_start, no_unit, all_reachable, no_cycle, no_left_recursion, left_factored, is_cnf + start not on a "
                         "right-hand side, solitary terminals, bodies <= 2), the model's verify, compares Verify()/IsCNF() with them, and requires "
-                        "g.Equal(clone) after every call including predictive.BuildParsingTable and the four LR grammar constructors.",
+                        "equality, after every call, with a copy of the grammar built independently from the case text (it shares no backing array with the receiver, unlike Clone()), for the seven transformations, predictive.BuildParsingTable, the four LR grammar constructors and simple/lookahead/canonical.BuildParsingTable; one third of the receivers hold bodies that are prefix slices of a longer body's array or have spare capacity.",
 })
 
 
